@@ -1,8 +1,8 @@
 (* C02 -- Function signatures equal CPython's view of the same definition.
    Property theorems only: each closed by [exact] of a lemma from Proofs/, followed by Print Assumptions. *)
 From Coq Require Import List ZArith String Bool Arith.
-From Verif Require Import Lib.Sexp Model.C02_kinds Gen.C02_tables Model.C02_params Model.C02_container Model.C02_scope Model.C02_tree
-  Proofs.C02_params Proofs.C02_container Proofs.C02_scope Proofs.C02_tree.
+From Verif Require Import Lib.Sexp Model.C02_kinds Gen.C02_tables Model.C02_params Model.C02_container Model.C02_scope Model.C02_tree Model.C02_flow
+  Proofs.C02_params Proofs.C02_container Proofs.C02_scope Proofs.C02_tree Proofs.C02_flow.
 Import ListNotations.
 Open Scope list_scope. Open Scope nat_scope.
 
@@ -347,3 +347,26 @@ Theorem C02_class_body_context_free :
   In (scope_frame (child path n) (mkScope true [] []) body) (sub_frames path (pre ++ SClass id n body :: post)).
 Proof. exact class_body_context_free. Qed.
 Print Assumptions C02_class_body_context_free.
+
+(* ===== flow-insensitive visit vs executed statements ===== *)
+
+(* The visitor walks every branch; CPython runs the live statements.  Whenever the decidable check [dead_ok]
+   (evaluated by the harness with the extracted model on every generated body) accepts a tagged body, the dead
+   statements are invisible: same member and pending overloads for every name, same outcome for every live definition. *)
+Theorem C02_dead_code_invisible :
+  forall its s, dead_ok [] its s = true ->
+  (forall n, mem n (visit_items (all_items its) s) = mem n (visit_items (live_items its) s) /\
+             buf n (visit_items (all_items its) s) = buf n (visit_items (live_items its) s)) /\
+  live_log its (visit_log (all_items its) s) = visit_log (live_items its) s.
+Proof. exact dead_code_invisible. Qed.
+Print Assumptions C02_dead_code_invisible.
+
+(* ... and then Griffe's view of the WHOLE body agrees with CPython executing its live part. *)
+Theorem C02_flow_insensitive_visit_agrees_with_cpython :
+  forall its c, dead_ok [] its (mkScope true [] []) = true ->
+  cpy_exec (live_items its) (mkC [] []) = Ok c ->
+  let s0 := mkScope true [] [] in
+  forall n, agrees n (visit_items (all_items its) s0) c
+                   (attached n (combine (live_items its) (live_log its (visit_log (all_items its) s0)))).
+Proof. exact flow_insensitive_visit_agrees_with_cpython. Qed.
+Print Assumptions C02_flow_insensitive_visit_agrees_with_cpython.
